@@ -7,7 +7,7 @@ open MuduoVerif.Timer MuduoVerif.Gen.Timer
 cancelled, the id is default-constructed or stale) outside an expiry batch changes nothing but the ghost record
 that it was processed. -/
 theorem cancel_noop (s : TQ) (id : TimerId) (h : (id.addr, id.seq) ∉ s.active) (hc : s.calling = false) :
-    cancelInLoop s id = emit s (.cancel id.addr id.seq false) := by
+    cancelInLoop s id = emit s (.cancel id.addr id.seq false false) := by
   unfold cancelInLoop
   simp [emit, cancelErases, cancelRemembers, h, hc]
 
